@@ -24,7 +24,7 @@ def bad_traj(kind, tag, identified, with_id=None):
         return t
     if kind == 'different_field_sets':
         ex = _extra_fieldset()
-        t = S.make_traj(tag, flight_id=(500 + tag) if identified else None, fieldsets=[ex.fieldset_name])
+        t = S.make_traj(tag, flight_id=(500 + tag) if (identified if with_id is None else with_id) else None, fieldsets=[ex.fieldset_name])
         t.vf_extra = np.zeros(2)
         return t
     if kind == 'identifier_missing_in_identified_store':
@@ -40,7 +40,7 @@ def reject_path(n_adds, backend_kind='fake'):
         kind = choose('rejection_kind', kinds)
         pos = choose('position_of_rejected_add', list(range(0, n_adds + 1)))
         session = choose('session', ['create', 'append', 'in_memory'])
-        with_id = choose('rejected_trajectory_carries_identifier', [True, False]) if kind == 'required_value_missing' else None
+        with_id = choose('rejected_trajectory_carries_identifier', [True, False]) if kind in ('required_value_missing', 'different_field_sets') else None
         problems = []
         layout = dict(identified=identified, kind=kind, position=pos, session=session, rejected_with_identifier=with_id)
         if pos == 0 and kind in ('identifier_missing_in_identified_store', 'identifier_given_in_unidentified_store', 'different_field_sets') and session != 'append':
